@@ -125,3 +125,46 @@ let run_small () =
      done
    with End_of_file -> ());
   Printf.printf "SUMMARY ops=%d diverged=%d bad_calls=%d\n" !ops !bad !bads
+
+(* the real free_memory_list in lock-step with UnorderedList: nodes in link order after every operation *)
+let run_unord () =
+  let st = ref None in
+  let ops = ref 0 and bad = ref 0 and lineno = ref 0 and arrays = ref 0 in
+  let diverge msg line = incr bad; if !bad <= 12 then Printf.printf "DIVERGE line %d: %s :: %s\n" !lineno msg (if String.length line > 300 then String.sub line 0 300 else line) in
+  let compare_state (l : ulist) caps line =
+    let k = kvs caps in
+    let nodes = parse_nodes (List.assoc "nodes" k) in
+    if List.map iz l.u_nodes <> nodes then diverge "free-list content (link order) differs from the model" line
+    else if int_of_string (List.assoc "cap" k) <> List.length nodes then diverge "capacity() differs from the number of linked nodes" line in
+  (try
+     while true do
+       let line = input_line stdin in
+       incr lineno;
+       match String.split_on_char '|' line with
+       | [head; mid; caps] when String.length head >= 5 && String.sub head 0 5 = "unord" ->
+         let l = u_empty (zi (int_of_string (List.assoc "ns" (kvs mid)))) in st := Some l; compare_state l caps line
+       | [head; caps] ->
+         (match !st, String.index_opt head '=' with
+          | Some l, Some i ->
+            let lhs = split_ws (String.sub head 0 i) and rhs = split_ws (String.sub head (i + 1) (String.length head - i - 1)) in
+            let ok l' = st := Some l'; compare_state l' caps line in
+            (match lhs, rhs with
+             | "ins" :: off :: size :: _, _ -> incr ops; ok (u_insert l (zi (int_of_string off)) (zi (int_of_string size)))
+             | "a" :: _, "ok" :: p :: _ ->
+               incr ops;
+               (match u_alloc l with Some (x, l') -> if iz x <> int_of_string p then diverge (Printf.sprintf "model allocates the node at %d" (iz x)) line; ok l' | None -> diverge "model: list empty" line)
+             | "aa" :: bytes :: _, r :: rest ->
+               incr ops; incr arrays;
+               (match u_alloc_array l (zi (int_of_string bytes)), r with
+                | Some (x, l'), "ok" -> if iz x <> int_of_string (List.hd rest) then diverge (Printf.sprintf "model takes the run at %d" (iz x)) line; ok l'
+                | None, "null" -> compare_state l caps line
+                | Some (x, _), _ -> diverge (Printf.sprintf "model finds a run at %d" (iz x)) line
+                | None, _ -> diverge "model finds no run of that many consecutive nodes" line)
+             | "d" :: _, "released" :: p :: bytes :: _ -> incr ops; ok (u_dealloc_array l (zi (int_of_string p)) (zi (int_of_string bytes)))
+             | "q" :: _, _ -> compare_state l caps line
+             | _ -> ())
+          | _ -> ())
+       | _ -> ()
+     done
+   with End_of_file -> ());
+  Printf.printf "SUMMARY ops=%d diverged=%d arrays=%d\n" !ops !bad !arrays
